@@ -1,6 +1,7 @@
 (* C12 — Motion vectors are reconstructed exactly for every predictor/differential pair. *)
 From H263V Require Import base.Prelude spec.SpecRecon model.Types model.Reader model.Header model.Syntax model.Recon model.Decoder
   proofs.MvSpec.
+From H263V Require Import model.Tables spec.SpecTables proofs.VlcTables.
 
 (* every predictor / differential pair of the half-sample range, each component *)
 Theorem C12_vector_wrap : forall cur running p d is_x,
@@ -30,7 +31,17 @@ Theorem C12_candidates : forall pv cur mbw idx,
                      (col =? mbw - 1) cur idx).
 Proof. exact predict_candidate_spec. Qed.
 
+(* the MVD code tree of the source decodes exactly H.263 Table 14: 64 code words for the differentials -16.0 .. +15.5
+   (half-sample units -32 .. 31), each read as its value wherever it starts and whatever follows; no further code word *)
+Theorem C12_mvd_code_table :
+  (forall code h rest pos, In (code, h) spec_mvd ->
+     read_vlc mvd_table (mkReader (code ++ rest) pos) = Ok (Some h, mkReader rest (pos + Z.of_nat (length code)))) /\
+  map snd spec_mvd = map (fun i => Z.of_nat i - 32) (seq 0 64) /\
+  count_leaves (fun o : option Z => match o with Some _ => true | None => false end) mvd_table = length spec_mvd.
+Proof. exact (conj mvd_is_table14 (conj mvd_covers_range mvd_no_other_codes)). Qed.
+
 Print Assumptions C12_vector_wrap.
+Print Assumptions C12_mvd_code_table.
 Print Assumptions C12_chroma_rounding.
 Print Assumptions C12_halfsample_split.
 Print Assumptions C12_candidates.
